@@ -17,8 +17,6 @@ from ..runner import CaseResult, Prop
 # fixed, type-stable key space: "a","b","cnt" hold ints, "log" a list, "n" a dict of ints
 INIT_VALUES = {"a": 1, "cnt": 5, "log": ["i"], "n": {"x": 7}}
 STATE_KEYS = ["a", "cnt", "log", "n"]
-SET_PATHS = ["a", "b", "n.x", "n.y"]
-INCR_KEYS = ["cnt", "a"]
 PUT_KEYS = ["a", "b"]
 BACKENDS = ["memory", "sqlite"]
 
@@ -30,6 +28,11 @@ def canon(obj) -> str:
 def uniq(ti: int, oi: int, mi: int = 0) -> int:
     """A value that names the operation that wrote it (so overwritten writes are visible)."""
     return 1000 * (ti + 1) + 10 * oi + mi
+
+
+def set_value(path: str, ti: int, oi: int):
+    """Value written by set(path, ...): type-stable per key ("log" stays a list)."""
+    return [f"s{ti}.{oi}"] if path == "log" else uniq(ti, oi)
 
 
 def whole_for(keys, ti, oi) -> dict:
@@ -71,10 +74,10 @@ def apply_op(state: dict, op, ti, oi) -> dict:
         new = dict(state)
         segs = op["path"].split(".")
         if len(segs) == 1:
-            new[segs[0]] = uniq(ti, oi)
+            new[segs[0]] = set_value(op["path"], ti, oi)
         else:
             inner = dict(new.get(segs[0], {}))
-            inner[segs[1]] = uniq(ti, oi)
+            inner[segs[1]] = set_value(op["path"], ti, oi)
             new[segs[0]] = inner
         return new
     if k == "set_state":
@@ -104,7 +107,7 @@ def serial_results(init: dict, tasks) -> set[str]:
 class C20(Prop):
     id = "C20"
     rule = (
-        "case = 2-4 concurrent tasks, each 1-3 operations on one state store of one run (DictState): set(path, v) with path in a,b,n.x,n.y; "
+        "case = 2-4 concurrent tasks, each 1-3 operations on one state store of one run (DictState): set(path, v) with path in cnt,log,a,b,n.x,n.y; "
         "set_state(whole new state); edit_state{read early or late; 0-2 suspension points, each 1-4 x asyncio.sleep(0) or a harness gate; "
         "write f(read): increments, appends, puts}; plus a generated schedule (0-3 loop yields before every operation, the order in which the "
         "harness opens the gates and how long it lets the loop run in between) and a generated initial state (row absent / some keys). Every "
@@ -126,7 +129,7 @@ class C20(Prop):
         "operations never raise by construction; an operation that raises or never completes is reported under its own violation kind",
     ]
     budgets = {"quick": 1200, "thorough": 2000}
-    wall = {"quick": 55.0, "thorough": 480.0}
+    wall = {"quick": 50.0, "thorough": 480.0}
 
     def setup(self):
         boot.seed_llama_agents()
@@ -143,33 +146,42 @@ class C20(Prop):
 
     def strategy(self, tier):
         pre = st.integers(0, 3)
-        mut = st.one_of(
-            st.tuples(st.just("incr"), st.sampled_from(["cnt", "cnt", "a"])).map(list),
-            st.just(["append"]),
-            st.tuples(st.just("put"), st.sampled_from(PUT_KEYS)).map(list),
-        )
         sus = st.one_of(
             st.tuples(st.just("y"), st.integers(1, 4)).map(list),
             st.tuples(st.just("g"), st.integers(0, 3)).map(list),
         )
-        edit = st.fixed_dictionaries(
-            {
-                "k": st.just("edit"),
-                "rd": st.sampled_from(["early", "early", "late"]),
-                "sus": st.lists(sus, min_size=0, max_size=2),
-                "muts": st.lists(mut, min_size=1, max_size=3),
-                "pre": pre,
-            }
+        any_mut = st.one_of(
+            st.tuples(st.just("incr"), st.sampled_from(["cnt", "a"])).map(list),
+            st.just(["append"]),
+            st.tuples(st.just("put"), st.sampled_from(PUT_KEYS)).map(list),
         )
-        set_ = st.fixed_dictionaries({"k": st.just("set"), "path": st.sampled_from(["a", "a", "b", "n.x", "n.y"]), "pre": pre})
-        set_state = st.fixed_dictionaries(
-            {"k": st.just("set_state"), "keys": st.lists(st.sampled_from(STATE_KEYS), unique=True, max_size=4).map(sorted), "pre": pre}
-        )
-        op = st.one_of(edit, edit, set_, set_state)
-        tasks = st.lists(st.lists(op, min_size=1, max_size=3), min_size=2, max_size=4)
+        any_path = st.sampled_from(["cnt", "log", "a", "b", "n.x", "n.y"])
         sched = st.lists(st.tuples(st.integers(0, 3), st.integers(0, 5)).map(list), max_size=6)
         init = st.one_of(st.none(), st.lists(st.sampled_from(STATE_KEYS), unique=True, max_size=4).map(sorted))
-        return st.fixed_dictionaries({"init": init, "tasks": tasks, "sched": sched})
+
+        def for_hot(hot):
+            # every case has one "hot" key that most writers touch, so that read-modify-write blocks and plain
+            # writes really collide (a lost update is only visible on a key both sides use)
+            hot_mut = st.just(["append"] if hot == "log" else ["incr", hot])
+            mut = st.one_of(hot_mut, hot_mut, hot_mut, any_mut)
+            edit = st.fixed_dictionaries(
+                {
+                    "k": st.just("edit"),
+                    "rd": st.sampled_from(["early", "early", "early", "late"]),
+                    "sus": st.lists(sus, min_size=0, max_size=2),
+                    "muts": st.lists(mut, min_size=1, max_size=3),
+                    "pre": pre,
+                }
+            )
+            set_ = st.fixed_dictionaries({"k": st.just("set"), "path": st.one_of(st.just(hot), st.just(hot), any_path), "pre": pre})
+            set_state = st.fixed_dictionaries(
+                {"k": st.just("set_state"), "keys": st.lists(st.sampled_from(STATE_KEYS), unique=True, max_size=4).map(sorted), "pre": pre}
+            )
+            op = st.one_of(edit, edit, edit, set_, set_, set_state)
+            tasks = st.lists(st.lists(op, min_size=1, max_size=3), min_size=2, max_size=4)
+            return st.fixed_dictionaries({"init": init, "tasks": tasks, "sched": sched})
+
+        return st.sampled_from(["cnt", "a", "log"]).flatmap(for_hot)
 
     # ------------------------------------------------------------------ one backend
 
@@ -242,7 +254,7 @@ class C20(Prop):
                             stats["contention"] = True
                         try:
                             if op["k"] == "set":
-                                await store.set(op["path"], uniq(ti, oi))
+                                await store.set(op["path"], set_value(op["path"], ti, oi))
                             elif op["k"] == "set_state":
                                 await store.set_state(DictState(**whole_for(op.get("keys", []), ti, oi)))
                             else:
